@@ -98,21 +98,37 @@ def sampling_programs(rng):
             {"t": "Squeezing2", "m": [0, 1], "p": {"r": 0.4, "phi": 0.3}}]
     out.append(("ffock-pnm", "ffock", 3, ferm + [{"t": "ParticleNumberMeasurement", "m": None, "p": {}}], 20, {"cutoff": 4}, "ParticleNumberMeasurement"))
     out.append(("fgaussian-pnm", "fgaussian", 3, ferm + [{"t": "ParticleNumberMeasurement", "m": None, "p": {}}], 20, {}, "ParticleNumberMeasurement"))
+    # sampler code paths the first fifteen programs never reach (found by a missed mutant: np.random.choice in
+    # _separate_particles): partially distinguishable inputs, post-selection, their combinations with loss, general-dyne
+    interf = {"t": "Interferometer", "m": [2, 0, 1], "p": {"matrix": M.enc(U)}}
+    pnm_all = {"t": "ParticleNumberMeasurement", "m": None, "p": {}}
+    dist = {"t": "DistinguishableNumberState", "m": None, "p": {"occupation_numbers": [2, 1, 0], "particle_overlap": 0.6}}
+    out.append(("passive-distinguishable", "passive", d, [dist, interf, pnm_all], 12, {"cutoff": 4}, "ParticleNumberMeasurement+Distinguishable"))
+    out.append(("passive-distinguishable-loss", "passive", d, [dist, interf, {"t": "Loss", "m": [0], "p": {"transmissivity": 0.8}}, pnm_all], 12,
+                {"cutoff": 4}, "ParticleNumberMeasurement+Distinguishable+Loss"))
+    out.append(("passive-postselect", "passive", d, base_passive + [{"t": "PostSelectPhotons", "m": [1], "p": {"photon_counts": [1]}},
+                                                                    {"t": "ParticleNumberMeasurement", "m": None, "p": {}}], 12, {}, "ParticleNumberMeasurement+PostSelect"))
+    out.append(("passive-distinguishable-postselect", "passive", d, [dist, interf, {"t": "PostSelectPhotons", "m": [2], "p": {"photon_counts": [1]}}, pnm_all], 12,
+                {"cutoff": 4}, "ParticleNumberMeasurement+Distinguishable+PostSelect"))
+    dc = np.array([[0.7, 0.1], [0.1, 1.6]])
+    out.append(("gaussian-generaldyne", "gaussian", d, gauss + [{"t": "GeneraldyneMeasurement", "m": [2, 0], "p": {"detection_covariance": M.enc(dc)}}], 10, {},
+                "GeneraldyneMeasurement"))
     return out
 
 
 PERTURBATIONS = ["none", "random-draws", "np-random-draws", "random-reseed", "np-random-reseed", "other-config-same-seed",
-                 "other-config-other-seed", "other-execution-before", "gc", "draw-between-config-and-sim"]
+                 "other-config-other-seed", "other-execution-before", "gc", "draw-between-config-and-sim",
+                 "same-execution-before"]
 
 
-def build_history(prog_name, kind, d, doc_ins, shots, extra, seed, perturbation, dask=None):
+def build_history(prog_name, kind, d, doc_ins, shots, extra, seed, perturbation, dask=None, other_ins=None):
     acts = []
-    programs = {"p": {"ins": doc_ins}, "q": {"ins": doc_ins}}
+    programs = {"p": {"ins": doc_ins}, "q": {"ins": doc_ins if other_ins is None else other_ins}}
     ex = dict(extra)
     if dask is not None:
         ex["use_dask"] = True
         acts.append({"op": "dask", "scheduler": dask[0], "workers": dask[1]})
-    if perturbation == "other-execution-before":
+    if perturbation in ("other-execution-before", "same-execution-before"):
         acts += [{"op": "config", "as": "c0", "seed": 12345, "extra": ex}, {"op": "sim", "as": "s0", "config": "c0", "kind": kind, "d": d},
                  {"op": "execute", "sim": "s0", "program": "q", "shots": 3, "record": None}]
     if perturbation == "random-draws":
@@ -200,7 +216,14 @@ def history_workload(ctx, rng, spec, workdir):
                 if time.time() - t0 > budget:
                     ctx.obs.add("history shard stopped by time budget")
                     return
-                hist = build_history(name, kind, d, ins, shots, extra, seed, pert)
+                other = None
+                if pert == "other-execution-before":
+                    # a different program of the same simulator kind and size first (a cache or generator state that
+                    # leaks between executions); "same-execution-before" repeats the program itself
+                    cands = [p for p in progs if p[1] == kind and p[2] == d and p[0] != name and p[5].get("cutoff") == extra.get("cutoff")]
+                    if cands:
+                        other = cands[int(prng.integers(0, len(cands)))][3]
+                hist = build_history(name, kind, d, ins, shots, extra, seed, pert, other_ins=other)
                 out, err = run_history(hist, workdir, "%s-%s-%s" % (name, seed, pert))
                 ctx.c["histories_run"] += 1
                 ctx.evals += 1
@@ -421,7 +444,7 @@ def threads_workload(ctx, rng, spec):
 def plan(tier, seed):
     q = tier == "quick"
     specs = []
-    nhist = 15  # one shard per sampling program (quick: one program each; thorough: all seeds and perturbations)
+    nhist = 20  # one shard per sampling program (quick: one program each; thorough: all seeds and perturbations)
     for i in range(nhist):
         specs.append({"name": "history-%d" % i, "kind": "history", "part": i, "of": nhist, "shard": i, "weight": 2})
     specs.append({"name": "hwc", "kind": "hwc", "shard": 40, "count": 24 if q else 120, "hwc": [0, 1, 2, 3, 5, 16, 64] if q else list(range(0, 17)) + [24, 32, 48, 64]})
